@@ -86,3 +86,34 @@ def containing(fam, segs, T):
             return []
         return [1] if T >= mid else [0]
     return [k for k, (lo, hi) in enumerate(segs) if float(lo) <= T <= float(hi)]
+
+
+# ------------------------------------------------------------------ conditions (C02, third round)
+# A species may carry "misc models" whose contribution depends on keyword arguments of the getters:
+#   gas species (GasPressureAdj):  S/R  -> S/R - ln(P / 1 bar)                      (ideal gas, P in bar)
+#   coverage effect (piecewise linear excess enthalpy in kcal/mol, continuous, 0 at x = 0):
+#                                  H/RT -> H/RT + Hex(x) / (R_kcal T)
+#   entropy of formation:          S/R  -> S/R - sum_el n_el S_el/R                 (S_elements=True)
+# Cp is unaffected by all three (none depends on T at fixed P, x), G = H - TS follows.
+def cov_excess_H(intervals, slopes, x):
+    """Excess enthalpy (kcal/mol) of a continuous piecewise-linear coverage effect at coverage x: the integral of
+    the slope from 0 to x (slopes[k] applies from intervals[k] to intervals[k+1], the last one without end)."""
+    x = float(x)
+    terms = []
+    for k, (lo, s) in enumerate(zip(intervals, slopes)):
+        hi = float(intervals[k + 1]) if k + 1 < len(intervals) else float('inf')
+        if x > lo:
+            terms.append(float(s) * (min(x, hi) - float(lo)))
+    return math.fsum(terms)
+
+
+def conditioned(vals, T, lnP=0.0, Hex_oR=0.0, S_ele=0.0):
+    """values() of the bare polynomial -> values under conditions.  lnP: ln(P/bar) for a species with a pressure
+    model (0 otherwise); Hex_oR: excess enthalpy / R in K; S_ele: dimensionless entropy of the elements."""
+    T = float(T)
+    dH, dS = Hex_oR / T, -lnP - S_ele
+    out = dict(vals)
+    out['HoRT'] = (vals['HoRT'][0] + dH, vals['HoRT'][1] + abs(dH))
+    out['SoR'] = (vals['SoR'][0] + dS, vals['SoR'][1] + abs(lnP) + abs(S_ele))
+    out['GoRT'] = (out['HoRT'][0] - out['SoR'][0], out['HoRT'][1] + out['SoR'][1])
+    return out
